@@ -1,4 +1,5 @@
 import AslProofs.HttpFrame
+import AslProps.C10Spec
 /-!
 # C10 — HTTP client and server exchange exact methods, headers, status and bodies
 
@@ -8,29 +9,13 @@ peer's sends were cut, i.e. every fragmentation of the byte stream; `rest` is wh
 connection (the next pipelined request, or nothing).
 -/
 namespace C10
-open AslModel.HttpFrame AslProofs.HttpFrame
+open AslModel.HttpFrame AslProofs.HttpFrame C10Spec
 
 /-! ## the sender adds nothing to and takes nothing from a length-framed body, for every block size -/
 
 /-- `write(buffer, n)` with a Content-Length: the blocks concatenate to the body (block boundaries are invisible) -/
 theorem length_framing_transparent (blk : Nat) (hb : 0 < blk) (body : Bytes) : writeBody false blk body = body :=
   writeBody_plain blk hb body
-
-theorem writeFileLoop_plain (blk rblk : Nat) (hb : 0 < blk) (hr : 0 < rblk) :
-    ∀ (f : Nat) (b : Bytes), b.length ≤ f → writeFileLoop false blk rblk f b = b := by
-  intro f
-  induction f with
-  | zero => intro b h; have : b = [] := List.eq_nil_of_length_eq_zero (by omega); subst this; rfl
-  | succ f ih =>
-    intro b h
-    unfold writeFileLoop
-    by_cases he : b.isEmpty = true
-    · simp only [he, if_true]; exact (List.isEmpty_iff.mp he).symm
-    · have hf : b.isEmpty = false := by simpa using he
-      have hne : b ≠ [] := by intro h0; subst h0; simp at he
-      have hl : 0 < b.length := List.length_pos_iff.mpr hne
-      simp only [hf, Bool.false_eq_true, if_false]
-      rw [writeBody_plain blk hb, ih _ (by rw [List.length_drop]; omega), List.take_append_drop]
 
 /-- `writeFile`: a file sent in `rblk`-byte reads, each through `write(buf, n)`, arrives as the file's bytes -/
 theorem file_blocks_transparent (blk rblk : Nat) (hb : 0 < blk) (hr : 0 < rblk) (content : Bytes) :
@@ -51,30 +36,6 @@ structure SeesRequest (q : Request) (method target : Bytes) (sent : List (Bytes 
   proto : q.proto = sHttp11
   body : q.body = body
   headers : ∀ nv ∈ sent, (∀ other ∈ sent, capitalized other.1 = capitalized nv.1 → other = nv) → header q.headers nv.1 = nv.2
-
-theorem norm_lookup : ∀ (hs : List (Bytes × Bytes)) (d : Dic) (nv : Bytes × Bytes), (∀ x ∈ hs, x.2 ≠ []) → nv ∈ hs →
-    (∀ other ∈ hs, capitalized other.1 = capitalized nv.1 → other = nv) →
-    dicGet (hs.foldl (fun d x => setHeader d x.1 x.2) d) (capitalized nv.1) = some nv.2 := by
-  intro hs
-  induction hs with
-  | nil => intro d nv _ h; exact absurd h (by simp)
-  | cons x t ih =>
-    intro d nv hne hmem huniq
-    simp only [List.foldl_cons]
-    by_cases hin : nv ∈ t
-    · exact ih _ nv (fun y hy => hne y (List.mem_cons_of_mem _ hy)) hin (fun o ho => huniq o (List.mem_cons_of_mem _ ho))
-    · have hx : nv = x := by
-        rcases List.mem_cons.mp hmem with h | h
-        · exact h
-        · exact absurd h hin
-      subst hx
-      rw [foldl_setHeader_preserve (capitalized nv.1) t _ (fun y hy => ⟨hne y (List.mem_cons_of_mem _ hy), fun hc => by
-        have := huniq y (List.mem_cons_of_mem _ hy) hc
-        subst this; exact hin hy⟩)]
-      rw [setHeader_of_value (hne nv List.mem_cons_self)]
-      exact dicGet_dicSet_same _ _ _
-
-theorem capitalized_idem_lookup (H : Dic) (n : Bytes) : header H n = (dicGet H (capitalized n)).getD [] := rfl
 
 /-- the header lines of a client request as they travel: `Host`, then the message's own headers -/
 def wireHeaders (method target host : Bytes) (port : Nat) (hs : Dic) (body : Bytes) : List (Bytes × Bytes) :=
@@ -154,19 +115,6 @@ structure SeesResponse (r : Response) (code : Nat) (proto : Bytes) (sent : List 
   body : r.body = body
   noError : r.sockError = []
   headers : ∀ nv ∈ sent, (∀ other ∈ sent, capitalized other.1 = capitalized nv.1 → other = nv) → header r.headers nv.1 = nv.2
-
-theorem codeMsg_ok (code : Nat) : (∀ c ∈ codeMsg code, c ≠ 10) ∧ (codeMsg code).length ≤ 15 := by
-  unfold codeMsg
-  repeat' split
-  all_goals exact ⟨by decide, by decide⟩
-
-theorem statusLine_eq (proto : Bytes) (code : Nat) : statusLine proto code = proto ++ [32] ++ utoa code ++ [32] ++ codeMsg code := rfl
-
-/-- the two protocol texts a response can start with -/
-def IsProto (p : Bytes) : Prop := p = sHttp11 ∨ p = sHttp10
-
-theorem proto_ok {p : Bytes} (h : IsProto p) : p ≠ [] ∧ (∀ c ∈ p, isSpace c = false) ∧ p.length = 8 := by
-  rcases h with h | h <;> subst h <;> exact ⟨by decide, by decide, by decide⟩
 
 /-- the message the server writes for a handler that `put()` a body: status line, the handler's headers plus the
 Content-Length that `put` sets -/
@@ -330,84 +278,6 @@ theorem keepalive_seq (opt : Bool) (base : Bytes) : ∀ (l : List (Sent × Plan)
 
 
 /-! ## the sender's chunk framing is RFC 7230 chunked transfer coding -/
-
-namespace Spec
-
-/-- value of one hexadecimal digit (RFC 5234 HEXDIG, either case) -/
-def hexDigitValue (c : UInt8) : Option Nat :=
-  if 48 ≤ c ∧ c ≤ 57 then some (c.toNat - 48)
-  else if 97 ≤ c ∧ c ≤ 102 then some (c.toNat - 87)
-  else if 65 ≤ c ∧ c ≤ 70 then some (c.toNat - 55)
-  else none
-
-def hexStep (acc : Option Nat) (c : UInt8) : Option Nat :=
-  match acc, hexDigitValue c with
-  | some a, some d => some (16 * a + d)
-  | _, _ => none
-
-/-- chunk-size = 1*HEXDIG -/
-def hexValue (s : Bytes) : Option Nat := if s.isEmpty then none else s.foldl hexStep (some 0)
-
-/-- RFC 7230 §4.1 (no extensions, no trailers): `chunked-body = *chunk last-chunk CRLF`,
-`chunk = chunk-size CRLF chunk-data CRLF` with `chunk-size > 0`; second index = the decoded payload -/
-inductive ChunkedBody : Bytes → Bytes → Prop
-  | last : ChunkedBody [48, 13, 10, 13, 10] []
-  | chunk (sz d w b : Bytes) : hexValue sz = some d.length → d ≠ [] → ChunkedBody w b →
-      ChunkedBody (sz ++ [13, 10] ++ d ++ [13, 10] ++ w) (d ++ b)
-
-end Spec
-
-theorem spec_hex_digit : ∀ d, d < 16 → Spec.hexDigitValue (hexDigit d) = some d := by decide
-
-theorem spec_fold_hex (xs : Bytes) (hx : ∀ c ∈ xs, IsHexD c) : ∀ y, xs.foldl Spec.hexStep (some y) = some (hexLoop xs y) := by
-  induction xs with
-  | nil => intro y; rfl
-  | cons c t ih =>
-    intro y
-    obtain ⟨d, hd, hc⟩ := hx c List.mem_cons_self
-    subst hc
-    simp only [List.foldl_cons, Spec.hexStep, spec_hex_digit d hd, hexLoop, (hex_digit d hd).1]
-    exact ih (fun c h => hx c (List.mem_cons_of_mem _ h)) _
-
-theorem spec_hexValue_hexLower (n : Nat) : Spec.hexValue (hexLower n) = some n := by
-  unfold Spec.hexValue
-  have hne : (hexLower n).isEmpty = false := by
-    have := hexLower_ne_nil n
-    cases h : hexLower n with
-    | nil => exact absurd h this
-    | cons a t => rfl
-  simp only [hne, Bool.false_eq_true, if_false]
-  rw [spec_fold_hex _ (hexLower_mem n)]
-  have := hexLoop_hexRev (n + 1) n (by omega)
-  unfold hexLower
-  rw [this]
-
-theorem writeLoop_chunked_spec (blk : Nat) (hb : 0 < blk) : ∀ (wf : Nat) (b w p : Bytes), b.length ≤ wf → Spec.ChunkedBody w p →
-    Spec.ChunkedBody (writeLoop true blk wf b ++ w) (b ++ p) := by
-  intro wf
-  induction wf with
-  | zero =>
-    intro b w p h hw
-    have : b = [] := List.eq_nil_of_length_eq_zero (by omega)
-    subst this; simpa [writeLoop] using hw
-  | succ wf ih =>
-    intro b w p h hw
-    by_cases he : b.isEmpty = true
-    · have := List.isEmpty_iff.mp he; subst this; simpa [writeLoop] using hw
-    · have hf0 : b.isEmpty = false := by simpa using he
-      have hne : b ≠ [] := by intro h0; subst h0; simp at he
-      have hl : 0 < b.length := List.length_pos_iff.mpr hne
-      rw [writeLoop]
-      simp only [hf0, Bool.false_eq_true, if_false, frameBlock, if_true]
-      have hrec := ih (b.drop (min b.length blk)) w p (by rw [List.length_drop]; omega) hw
-      have htk : b.take (min b.length blk) ≠ [] := by
-        intro h0
-        have : (b.take (min b.length blk)).length = 0 := by rw [h0]; rfl
-        rw [List.length_take] at this; omega
-      have := Spec.ChunkedBody.chunk (hexLower (b.take (min b.length blk)).length) (b.take (min b.length blk)) _ _
-        (spec_hexValue_hexLower _) htk hrec
-      rw [← List.append_assoc (b.take _), List.take_append_drop] at this
-      simpa [crlf, List.append_assoc] using this
 
 /-- **sender conformance.**  What `write(part)` puts on the wire for any list of parts and any block size, followed
 by the last chunk, is a chunked body in the sense of RFC 7230 whose payload is the concatenation of the parts. -/
